@@ -149,4 +149,107 @@ theorem server_ok {g : Bool} {o : Opts} {c : TlsCfg} (h : serverGetTlsConfig g o
     refine ⟨conf, rfl, ?_⟩
     cases hg : (g && o.flag) <;> simp [hg] at h <;> subst h <;> simp [this]
 
+/-! ## histories through one manager -/
+
+/-- with a new object per call, an attempt neither reads nor changes the manager's state -/
+theorem attemptOn_fresh (F : Facts) (o : Opts) (a : Attempt) (m : Mgr) :
+    attemptOn F true o a m = ((attemptOn F true o a none).1, m) := by
+  unfold attemptOn mgrGet
+  cases a.asks F <;> simp
+  cases clientGetTlsConfig o <;> simp
+
+/-- every attempt that is made in a history over a fresh-per-call manager behaves as it does alone -/
+theorem runHist_fresh (X : X509) (F : Facts) (o : Opts) (fo : Bool) :
+    ∀ (as : List Attempt) (m : Mgr) (i : Nat) (out : Outcome),
+      (runHist X F true o fo as m)[i]? = some (some out) →
+      ∃ a, as[i]? = some a ∧ out = alone X F o a := by
+  intro as
+  induction as with
+  | nil => intro m i out h; simp [runHist] at h
+  | cons a as ih =>
+    intro m i out h
+    have hf := attemptOn_fresh F o a m
+    cases i with
+    | zero =>
+      simp only [runHist, List.getElem?_cons_zero, Option.some.injEq] at h
+      refine ⟨a, rfl, ?_⟩
+      rw [← h, hf]
+      rfl
+    | succ i =>
+      simp only [runHist, List.getElem?_cons_succ] at h
+      split at h
+      · simp only [List.getElem?_map] at h
+        cases hh : as[i]? <;> simp [hh] at h
+      · rw [hf] at h
+        obtain ⟨b, hb, hout⟩ := ih m i out h
+        exact ⟨b, by simpa using hb, hout⟩
+
+/-- without fail-over every attempt is made, and each behaves as it does alone -/
+theorem runHist_seq_fresh (X : X509) (F : Facts) (o : Opts) :
+    ∀ (as : List Attempt) (m : Mgr),
+      runHist X F true o false as m = as.map (fun a => some (alone X F o a)) := by
+  intro as
+  induction as with
+  | nil => intro m; rfl
+  | cons a as ih =>
+    intro m
+    have hf := attemptOn_fresh F o a m
+    simp only [runHist, Bool.false_and, Bool.false_eq_true, if_false, List.map_cons, hf, ih]
+    rfl
+
+/-- a new object that went through its upstream kind carries into the handshake exactly what the
+    single-attempt model (`clientCfgFor`, `nameFor`) says -/
+theorem kindWrites_fresh (F : Facts) (k : Kind) (hostport resolved : Name) (c : TlsCfg) (hn : c.serverName = []) :
+    let c' := kindWrites F k hostport c
+    { c' with serverName := effName k hostport resolved c' } =
+      { (if forcesInsecure F.sites k then { c with insecureSkipVerify := true } else c) with
+          serverName := nameFor F k hostport resolved } ∧ c'.certs = c.certs := by
+  cases hfi : forcesInsecure F.sites k <;> cases k <;>
+    simp [kindWrites, effName, nameFor, socketTlsName, hfi, hn] <;>
+    (try (cases hs : F.setsHostname <;> cases hu : (urlHostname hostport).isEmpty <;> simp_all)) <;>
+    (try (cases hz : (startTlsName F.stripsPort hostport).isEmpty <;> simp_all))
+
+/-- the session outcome of an attempt on its own is the single-attempt model `established`, for a
+    peer that answers on the carrier -/
+theorem alone_est (X : X509) (F : Facts) (o : Opts) (a : Attempt) :
+    (alone X F o a).est = (a.up && established X F a.kind a.hostport a.resolved o a.so) := by
+  unfold alone attemptOn mgrGet established clientCfgFor
+  simp only [if_true]
+  cases hc : clientGetTlsConfig o with
+  | err e => cases a.asks F <;> simp [sessionWith]
+  | panic => cases a.asks F <;> simp [sessionWith]
+  | ok c =>
+    have hn := (client_ok hc).2.2.1
+    have hk := kindWrites_fresh F a.kind a.hostport a.resolved c hn
+    cases hasks : a.asks F with
+    | true =>
+      simp only [if_true, sessionWith]
+      cases hup : a.up <;> simp only [Bool.false_and, Bool.true_and]
+      cases hs : serverGetTlsConfig F.guardErrNil a.so with
+      | err e => cases forcesInsecure F.sites a.kind <;> simp
+      | panic => cases forcesInsecure F.sites a.kind <;> simp
+      | ok scfg =>
+        cases hp : scfg.certs.head? with
+        | none => cases forcesInsecure F.sites a.kind <;> simp [hp]
+        | some peer =>
+          cases hfi : forcesInsecure F.sites a.kind <;> simp only [hfi, if_true, if_false, Bool.false_eq_true] at hk ⊢ <;>
+            simp only [hp] <;> rw [hk.1, hk.2]
+    | false =>
+      -- only StartTLS can fail to ask: the peer is down or offers no STARTTLS
+      simp only [Bool.false_eq_true, if_false, sessionWith]
+      cases hkind : a.kind <;> simp [Attempt.asks, hkind] at hasks
+      cases hup : a.up with
+      | false => simp
+      | true =>
+        have hoff := hasks hup
+        simp only [Bool.true_and]
+        unfold offersStartTls at hoff
+        cases hs : serverGetTlsConfig F.guardErrNil a.so with
+        | err e => cases forcesInsecure F.sites Kind.startTls <;> simp
+        | panic => cases forcesInsecure F.sites Kind.startTls <;> simp
+        | ok scfg =>
+          simp only [hs] at hoff
+          have : scfg.certs = [] := by simpa using hoff
+          cases forcesInsecure F.sites Kind.startTls <;> simp [this]
+
 end SA.TlsConfig
